@@ -528,6 +528,9 @@ func rlReflectDriver(raw json.RawMessage) *Out {
 	if c.Opts.EnumNums {
 		out.Key += "|enumNums"
 	}
+	if c.Opts.ZeroPrefixed {
+		out.Key += "|zeroPrefixed"
+	}
 	fam := rlFamily(d.Kind)
 	where := d.Card + ":" + d.Kind
 	set := rlSetAttrs(d)
